@@ -95,11 +95,22 @@ def raster_phase(run, stats):
         kind, img = gen_image(run.rng)
         h, w = img.shape
         stats["images"][kind] = stats["images"].get(kind, 0) + 1
-        hm = RasterHeightMap(img)
+        via = "array"
+        if it % 3 == 2:
+            # the same pixels through an image file (PNG is lossless for 8- and 16-bit grayscale)
+            import cv2
+            via = "png"
+            path = os.path.join(scratch_dir("c19files"), "img_%d.png" % it)
+            if not cv2.imwrite(path, img):
+                raise RuntimeError("cv2.imwrite failed")
+            hm = RasterHeightMap.from_path(path)
+            os.remove(path)
+        else:
+            hm = RasterHeightMap(img)
         scale = run.rng.choice([1.0, 2.0, 0.5, 12.5, 0.03125, 100.0])
         hm.set_scale(scale)
         mx = 65535.0 if img.dtype == np.uint16 else 255.0
-        rep = dict(kind="raster", dtype=str(img.dtype), image=img.tolist(), scale=scale)
+        rep = dict(kind="raster", dtype=str(img.dtype), image=img.tolist(), scale=scale, loaded_via=via)
         run.count(("raster", kind, h, w, it), True)
         # ---- exact at pixel centres, x = column, y = row; zero outside
         own = RectBivariateSpline(np.arange(h), np.arange(w), (img / mx).astype(np.float32))
@@ -450,7 +461,7 @@ def main():
     extra = dict(input_distribution=stats, correspondence_cases=len(expect), correspondence_mismatches=len(mism),
                  modelled_not_verified=["scipy RectBivariateSpline reproduces the grid (hypothesis of C19_raster_pixel_centre; checked by the oracle at every pixel)",
                                         "scipy Delaunay/LinearNDInterpolator (the triangulation is an input of the model; checked by the oracle)",
-                                        "float32 storage of normalised heights; OpenCV image loading (from_path) not exercised"])
+                                        "float32 storage of normalised heights; OpenCV PNG encoding/decoding (from_path is exercised on a third of the images)"])
     run.finish(proof=st, extra=extra)
 
 
